@@ -147,7 +147,14 @@ static void run_case(seqx::Runner &R, const Cfg &cfg, const std::vector<int> &se
             pub.reset(new cocls::publisher<int>());
         else
             pub.reset(new cocls::publisher<int>((std::size_t)cfg.maxq, (std::size_t)cfg.minq));
-        std::unique_ptr<cocls::subscriber<int>> sub[2];
+        // fixed storage: a subscriber created again in the same place has the same address as its predecessor (like a local
+        // variable of a function called repeatedly); the publisher keys its registration table by that address
+        struct SubStore {
+            std::optional<cocls::subscriber<int>> s[2];
+        };
+        std::unique_ptr<SubStore> store(new SubStore);
+        bool leak_store = false;
+        auto &sub = store->s;
         auto stype = cfg.mode == 0 ? cocls::subscribtion_type::all_values : cfg.mode == 1 ? cocls::subscribtion_type::skip_if_behind : cocls::subscribtion_type::skip_to_recent;
         bool ok = true;
         size_t step = 0;
@@ -223,17 +230,17 @@ static void run_case(seqx::Runner &R, const Cfg &cfg, const std::vector<int> &se
                     break;
                 }
                 case SUBR:
-                    sub[slot].reset(new cocls::subscriber<int>(*pub, stype));
+                    sub[slot].emplace(*pub, stype);
                     ms[slot] = MSub{true, false, false, false, n};
                     break;
                 case SUBAT: {
                     long p = std::max<long>(0, n - cfg.minq);
-                    sub[slot].reset(new cocls::subscriber<int>(*pub, (std::size_t)p, stype));
+                    sub[slot].emplace(*pub, (std::size_t)p, stype);
                     ms[slot] = MSub{true, false, false, false, p};
                     break;
                 }
                 case COPY:
-                    sub[1].reset(new cocls::subscriber<int>(*sub[0]));
+                    sub[1].emplace(*sub[0]);
                     ms[1] = MSub{true, false, false, false, ms[0].c};
                     break;
                 case CLOSE:
@@ -281,7 +288,7 @@ static void run_case(seqx::Runner &R, const Cfg &cfg, const std::vector<int> &se
                     int k = op - KICK0;
                     ms[k].kicked = true;
                     if (k == 0)
-                        pub->kick(sub[0].get());
+                        pub->kick(&*sub[0]);
                     else
                         sub[1]->kick_me();
                     check_woken("kick", k);
@@ -306,15 +313,19 @@ static void run_case(seqx::Runner &R, const Cfg &cfg, const std::vector<int> &se
             if (ms[k].alive && ms[k].parked) {
                 if (!res[k].done) {
                     if (ok) R.fail("pub/parked-subscriber-not-woken", "destroying the publisher left subscriber %d suspended", k);
-                    (void)sub[k].release();  // cannot be destroyed safely
+                    leak_store = true;  // cannot be destroyed safely
                 } else if (ok) {
                     ms[k].parked = false;
                     step = seq.size();
                     deliver(k, res[k].result, res[k].value, "publisher destroyed");
                 }
             }
-        sub[0].reset();
-        sub[1].reset();
+        if (leak_store)
+            (void)store.release();
+        else {
+            sub[0].reset();
+            sub[1].reset();
+        }
         R.outcome(seqx::mix((uint64_t)n, (uint64_t)ms[0].c * 8 + (uint64_t)ms[1].c));
     }
     if (!R.case_fail && seqx::live_allocs() != base) R.fail("pub/allocation-balance", "%ld allocations not released", (long)(seqx::live_allocs() - base));
@@ -357,6 +368,35 @@ void seqx_run(seqx::Runner &R, const std::string &tier) {
         m.cfg = c;
         std::vector<int> seq;
         dfs(R, c, depth, seq, m);
+    }
+    // histories that do not start from the initial state: the publisher's registration table has been used, released
+    // and re-used (stale entries, scrambled free list, subscriber objects at re-used addresses) before the enumeration
+    // starts; every continuation of 4 (5) further operations
+    static const std::vector<std::vector<int>> prefixes = {
+        {SUBR, SUBR, LEAVE0, LEAVE1},
+        {SUBR, SUBR, LEAVE1, LEAVE0},
+        {SUBR, SUBR, LEAVE0, SUBR},
+        {PUB, SUBR, SUBAT, LEAVE0},
+        {SUBR, LEAVE0, PUB},
+    };
+    for (auto &c : cfgs) {
+        bool deep = (c.minq == 1 && (c.maxq == 1 || c.maxq == 2 || c.maxq >= UNLIM)) || (c.minq == 2 && c.maxq == 3);
+        if (!deep) continue;
+        for (auto &pre : prefixes) {
+            Model m;
+            m.cfg = c;
+            std::vector<int> seq;
+            bool ok = true;
+            for (int op : pre) {
+                if (!m.enabled(op)) {
+                    ok = false;
+                    break;
+                }
+                m.apply(op);
+                seq.push_back(op);
+            }
+            if (ok) dfs(R, c, (int)pre.size() + (q ? 4 : 5), seq, m);
+        }
     }
 }
 
